@@ -14,7 +14,7 @@ CLASS2PROP = {
     "I-loc": "C16", "I-dup": "C16", "I-drain": "C16", "I-lostwake": "C16", "I-unknown": "C16", "I-zombie": "C16",
     "R-elig": "C17", "R-notdone": "C17", "R-order": "C17", "R-final": "C17", "R-wait": "C17",
     "R-idem": "C17", "R-count": "C17", "R-ttl": "C17", "R-snap": "C17", "R-timeout": "C17",
-    "R-error": "C17",
+    "R-error": "C17", "R-restart": "C18",
 }
 
 DEFAULT_TIMEOUT = 120.0
